@@ -40,6 +40,18 @@ Hardening pass 2 (HARDENING2.md).
   F foreign traffic     before part of the callable workload the other public consumers of forward_ft_unit, make_xy_grid,
                         optimize_xy_separable and cart_to_polar run with hostile arguments (shift on/off, precision 32,
                         returned grids edited in place), then apply_transfer_functions is judged on the same (dx, n)
+
+Hardening pass 3 (HARDENING3.md).
+  G magnitudes / units  conv(s a, t h) = s t conv(a, h), apply_transfer_functions(s o, [t T1, T2]) = s t (...) for arrays and callables,
+                        OTF / MTF / PTF unchanged by a constant factor on the PSF, s and t from 1e-12 to 1e12; dx -> k dx with every
+                        length parameter of the callables rescaled (k = 1e-6 ... 1e9) leaves the image unchanged
+  H special values      impulses exactly at every corner / edge mid-point / next to the origin of every shape (incl. 1xN and sizes
+                        >= 64); all-ones / all-zero PSFs, objects and transfer functions; phase ramps translating by exactly one
+                        non-zero component, +-1, +-n/2, n-1, +-n; single-sample and constant PSFs through mtf/otf/ptf
+  I structure           transfer functions as the equivalent (K, M, N) ndarray stack (np.stack / np.array / Fortran order / strided
+                        view / np.conj, K = 1, 2, 3 incl. K == M == N), judged against the list form and the product law;
+                        DM.render_backprop (which passes such a stack) under the contract; prime / awkward sizes >= 64 (65, 67, 74,
+                        101, 127, 129, 131; thorough to 521) with dense content that wraps around the border
 """
 import functools
 import math
@@ -65,7 +77,11 @@ RULE = ('shapes enumerated smallest first (all (n0,n1) up to a bound incl. 1xN, 
         'asymmetric function of its arguments judged against the array it evaluates to by parameter name; 64 ordered dtype pairs '
         'of conv operands (small and full-range integers), 8 object dtypes x 8 transfer-function kinds, 8 PSF dtypes x array / '
         'RichData; 8 dx forms, 8 explicit-grid forms, keyword / positional / omitted-default call syntax, 3 tfs containers; '
-        'foreign-traffic preludes (3 kinds) before part of the callable workload')
+        'foreign-traffic preludes (3 kinds) before part of the callable workload.  Hardening pass 3: per shape x shift convention a '
+        'container workload (K = 1, 2, 3 transfer functions of 4 dtype kinds as a (K, M, N) ndarray in 5 forms, all-ones / all-zero '
+        'stacks), a magnitude workload (8 factor pairs 1e-12 ... 1e12 through conv, array and callable transfer functions, 4 factors '
+        'through mtf/otf/ptf, 4 unit factors) and a special-value workload (impulses at up to 25 edge / corner / origin-adjacent '
+        'positions, 16 special translations as array and as callable, constant / zero operands); awkward sizes >= 64 with dense operands')
 ASSUMPTIONS = ['origin sample of an axis of length n is index n//2 (C04 convention); the routines are FFT based so '
                'circular (roll) shifts are the exact model',
                'documented frequency grid of apply_transfer_functions: zero frequency at the centre sample (n//2) for '
@@ -86,7 +102,12 @@ ASSUMPTIONS = ['origin sample of an axis of length n is index n//2 (C04 conventi
                'integer images span the whole range of their dtype in half of the dtype cases (int64 below 2**40 so that the float64 copy '
                'of the oracle is exact)',
                'an array a helper returned (forward_ft_unit, make_xy_grid, cart_to_polar, optimize_xy_separable) belongs to the caller: '
-               'editing it in place must not change later results of the routines of this property']
+               'editing it in place must not change later results of the routines of this property',
+               'a (K, M, N) ndarray is a sequence of K transfer functions: the current tree iterates it exactly like a list and prysm '
+               'itself passes one (x.dm.DM.render_backprop: np.conj(self.tf)); a bare 2-D array as `tfs` is iterated row by row today, '
+               'means something else and is not driven',
+               'magnitudes: every scale in the laws is relative (reference norm), so factors 1e-12 ... 1e12 are judged at the ordinary 1e-10; '
+               'the unit-change law is judged at 1e-9 (the rescaled frequency x length products differ by a few ulp in their arguments)']
 REQUIRED = ['conv.model', 'conv.linearity', 'conv.commutativity', 'conv.impulse-identity', 'conv.impulse-translation',
             'conv.energy', 'atf.model', 'atf.list-vs-product', 'atf.ones-identity', 'atf.linear-phase',
             'atf.callable-vs-array', 'mtf.dc', 'mtf.max', 'mtf.point-symmetry', 'otf.abs-vs-mtf', 'otf.arg-vs-ptf',
@@ -94,7 +115,9 @@ REQUIRED = ['conv.model', 'conv.linearity', 'conv.commutativity', 'conv.impulse-
             'otf.container-vs-array', 'history.otf-container', 'history.otf-array', 'history.conv', 'history.atf',
             'precision32.cases', 'precision32-then-64.cases', 'regime.aspect',
             'form.callable-signature', 'form.conv-dtype', 'form.atf-dtype', 'form.otf-dtype', 'form.dx', 'form.grid',
-            'form.call-syntax', 'foreign.cases']
+            'form.call-syntax', 'foreign.cases',
+            'form.tfs-stack', 'scale.conv', 'scale.atf', 'scale.units', 'scale.otf', 'special.conv', 'special.atf', 'special.otf',
+            'size.awkward']
 
 CTX = None
 WL = {}          # label of the workload that is driving the contracts right now (goes into contract witnesses)
@@ -588,6 +611,7 @@ def run(ctx):
         _run_regimes(ctx)
         _run_forms(ctx)
         _run_foreign(ctx)
+        _run_pass3(ctx)
         _run_rejections(ctx)
         _run_internal(ctx)
     finally:
@@ -945,7 +969,7 @@ def _run_otf(ctx):
 
 # ------------------------------------------------------------------------------------------- class A: repeat / aliasing
 REPEAT_SHAPES_Q = [(1, 2), (2, 2), (3, 3), (3, 4), (4, 4), (5, 5), (4, 7), (7, 4), (8, 8), (9, 6), (11, 11), (12, 15), (16, 16), (17, 20)]
-TF_CONTAINERS = ['list', 'tuple']     # the documented type is 'sequence'; a 3-D ndarray stack is not demanded
+TF_CONTAINERS = ['list', 'tuple']     # the documented type is 'sequence'; the 3-D ndarray stack has its own workload (_p3_stack)
 TF_DTYPES = ['complex128', 'complex64', 'float64', 'float32', 'int64']
 
 
@@ -1433,7 +1457,7 @@ DT_ALL = ['bool', 'uint8', 'uint16', 'int16', 'int32', 'int64', 'float32', 'floa
 DX_FORMS = ['python-float', 'python-int', 'numpy-float64', 'numpy-float32', 'numpy-int64', '0d-float64', '0d-float32', '0d-int64']
 GRID_FORMS = ['1d', 'row+column', 'meshgrid', 'meshgrid-F-order', 'broadcast-view-readonly', '1d-float32', 'meshgrid-float32',
               '1d-strided-view']
-TFS_CONTAINERS = ['list', 'tuple']          # the documented type is 'sequence'; views / generators / 3-D stacks are not demanded
+TFS_CONTAINERS = ['list', 'tuple']          # the documented type is 'sequence'; views / generators are not demanded; 3-D stacks: _p3_stack
 
 
 def cast_full(x, dt):
@@ -1871,6 +1895,294 @@ def _form_args(ctx, atf, conv, otf, RichData, r, shape, shift, desc):
                  f'{w}_from_psf(psf=container) != {w}_from_psf(container.data, container.dx)', d, RT, 1.0)
 
 
+# ------------------------------------------------------------------------------------------- hardening pass 3 (HARDENING3.md)
+# G  magnitudes / units: conv is bilinear, apply_transfer_functions is linear in the object and in every transfer function, the
+#    OTF / MTF / PTF are homogeneous of degree 0 in the PSF -- for factors 1e-12 ... 1e12; a consistent change of units
+#    (dx -> k dx with every callable's parameters rescaled) leaves the image unchanged.
+# H  special values: impulses exactly at every corner / edge mid-point / next to the origin of any shape (incl. 1xN), all-ones
+#    and all-zero PSFs and transfer functions, translations with exactly one zero component and by exactly +-n/2, +-(n-1), +-n.
+# I  structure: transfer functions given as the equivalent (K, M, N) ndarray stack (np.stack / np.array / np.conj of a list:
+#    what prysm's own DM.render_backprop passes), K = 1, 2, 3, also where K == M == N; prime / awkward sizes >= 64 with content
+#    that wraps around the border.
+# Accepted forms established on /repo @ c2c1d7f: `for tf in tfs` iterates a 3-D ndarray along its first axis exactly as it
+# iterates a list (any memory order, any dtype); a bare 2-D array is iterated row by row, i.e. means something else: out of domain.
+P3_SHAPES = [(1, 7), (6, 1), (2, 2), (3, 3), (2, 3), (4, 4), (5, 5), (5, 8), (8, 5), (7, 7), (12, 9), (16, 16)]
+AWKWARD_Q = [(65, 65), (67, 64), (64, 129), (101, 74), (127, 66), (1, 131), (74, 1), (129, 3)]
+AWKWARD_T = [(127, 127), (257, 64), (64, 257), (131, 257), (263, 67), (1, 521), (509, 2), (97, 101), (113, 128), (149, 83)]
+FACTORS = [(1e-12, 1.0), (1.0, 1e-12), (1e-9, 1e-9), (1e12, 1.0), (1.0, 1e12), (1e9, 1e9), (1e-12, 1e12), (1e12, 1e-9)]
+STACK_FORMS = ['np.stack', 'np.array', 'F-order', 'strided-view', 'np.conj']
+
+
+def _mag(s):
+    return 'one' if s == 1.0 else ('tiny' if s < 1 else 'huge')
+
+
+def _stack_form(form, L):
+    """The list L of equal-shape arrays as one (K, M, N) ndarray."""
+    if form == 'np.stack':
+        return np.stack(L)
+    if form == 'np.array':
+        return np.array(L)
+    if form == 'F-order':
+        return np.asfortranarray(np.stack(L))
+    if form == 'strided-view':
+        big = np.full((2 * len(L) + 1,) + L[0].shape, 7.0, dtype=np.result_type(*L))
+        big[1::2] = np.stack(L)
+        return big[1::2]
+    if form == 'np.conj':       # what DM.render_backprop does with its list
+        return np.conj([np.conj(t) for t in L])
+    raise ValueError(form)
+
+
+def _p3_stack(ctx, atf, r, shape, shift, desc, light=False):
+    o = r.standard_normal(shape)
+    omax = max(float(np.abs(o).max()), 1e-300)
+    j = int(r.integers(len(STACK_FORMS)))
+    broken = False
+    for K in ((1, 2, 3) if not light else (2,)):
+        for kind in (('hermitian', 'real', 'generic', 'int') if not light else ('hermitian',)):
+            j += 1
+            if kind == 'hermitian':
+                L = [herm_random(shape, r, shift) for _ in range(K)]
+            elif kind == 'real':
+                L = [even_real(shape, r, shift) for _ in range(K)]
+            elif kind == 'generic':
+                L = [r.standard_normal(shape) + 1j * r.standard_normal(shape) for _ in range(K)]
+            else:
+                L = [np.round(even_real(shape, r, shift) * 4).astype(np.int64) - 1 for _ in range(K)]
+            d = dict(desc, K=K, tf_kind=kind)
+            key = 'C15/atf/form:tfs=ndarray-stack'
+            with ctx.guard(key, d):
+                a_list = np.asarray(atf(o, None, L, shift=shift))
+                a_prod = np.asarray(atf(o, None, [functools.reduce(lambda x, y: x * y, L)], shift=shift))
+                sc = max(float(np.abs(a_prod).max()), omax * 1e-3)
+                for form in (STACK_FORMS[j % 5], STACK_FORMS[(j + 2) % 5]):      # every form several times per case, rotating
+                    S = _stack_form(form, L)
+                    keep = np.array(S)
+                    got = atf(o, None, S, shift=shift)
+                    d2 = dict(d, stack_form=form)
+                    if not _law(ctx, 'form.tfs-stack', got, a_list, key, 'transfer functions given as a (K, M, N) ndarray stack give a '
+                                'different image than the same transfer functions given as a list', d2, RT, sc):
+                        broken = True
+                        break
+                    _law(ctx, 'atf.list-vs-product', got, a_prod, f'C15/atf/shift={shift}/list-vs-product/ndarray-stack',
+                         'apply_transfer_functions(o, stack of t1..tk) != apply_transfer_functions(o, [t1*..*tk])', d2, RT, sc)
+                    got2 = atf(o, 0.7, tfs=S, shift=shift)          # same stack object again, keyword form
+                    _law(ctx, 'form.tfs-stack', got2, a_list, key + '/second-use', 'second call with the same ndarray stack differs from '
+                         'the list form', d2, RT, sc)
+                    ctx.require('form.tfs-stack', np.array_equal(keep, S), key + '/stack-modified',
+                                'apply_transfer_functions modified the caller\'s stack of transfer functions', d2)
+        if light or broken:      # the container form itself is broken: already reported under its own key
+            continue
+        d = dict(desc, K=K, tf_kind='ones/zeros')
+        with ctx.guard('C15/atf/form:tfs=ndarray-stack', d):
+            _identity_law(ctx, atf(o, None, np.ones((K,) + shape), shift=shift), o, shift, d,
+                          'a (K, M, N) stack of all-ones transfer functions does not return the object')
+            Z = np.ones((K,) + shape)
+            Z[K - 1] = 0.0
+            for tfs, lab in ((Z, 'ndarray-stack'), ([z for z in Z], 'list')):
+                _law(ctx, 'special.atf', atf(o, None, tfs, shift=shift), np.zeros(shape), f'C15/atf/shift={shift}/special:tf=all-zero',
+                     'an all-zero transfer function in the sequence does not give the zero image', dict(d, container=lab), RT, omax)
+
+
+def _p3_scale(ctx, conv, atf, otf, RichData, r, shape, shift, desc):
+    a = r.standard_normal(shape)
+    h = r.random(shape) + 0.01
+    with ctx.guard('C15/conv/scale', desc):
+        i0 = np.asarray(conv(a, h), dtype=float)
+        sc = float(np.abs(a).sum()) * float(h.max())
+        for sa, sh in FACTORS:
+            d = dict(desc, factors=[sa, sh])
+            _law(ctx, 'scale.conv', conv(sa * a, sh * h), (sa * sh) * i0, f'C15/conv/scale:obj={_mag(sa)},psf={_mag(sh)}',
+                 f'conv({sa:g} a, {sh:g} h) != {sa * sh:g} conv(a, h)', d, RT, sa * sh * sc)
+    dx = [1.0, 0.25, 3.7][int(r.integers(3))]
+    T = [herm_random(shape, r, shift), even_real(shape, r, shift)]
+    pool = callable_pool(np.random.default_rng(desc['seed']), dx)
+    names = list(pool)
+    name = names[int(r.integers(len(names)))]
+    c = pool[name]
+    for tfs_of, label in ((lambda st: [st * T[0], T[1]], 'arrays'), (lambda st: [times_array(c, st), T[1]], 'callable')):
+        d0 = dict(desc, tf=label, callable=name, dx=dx)
+        with ctx.guard(f'C15/atf/scale/{label}', d0):
+            i0 = np.asarray(atf(a, dx, tfs_of(1.0), shift=shift), dtype=float)
+            sc = max(float(np.abs(i0).max()), float(np.abs(a).max()) * 1e-3, 1e-300)
+            for sa, st in FACTORS:
+                d = dict(d0, factors=[sa, st])
+                _law(ctx, 'scale.atf', atf(sa * a, dx, tfs_of(st), shift=shift), (sa * st) * i0,
+                     f'C15/atf/scale:obj={_mag(sa)},tf={_mag(st)}/{label}',
+                     f'apply_transfer_functions({sa:g} o, [{st:g} t1, t2]) != {sa * st:g} apply_transfer_functions(o, [t1, t2])',
+                     d, RT, sa * st * sc)
+    # a consistent change of units: dx -> k dx, every callable parameter (a length) -> k times itself
+    for k in (1e-6, 1e-3, 1e3, 1e9):
+        pk = callable_pool(np.random.default_rng(desc['seed']), k * dx)
+        mode = GRID_MODES[int(r.integers(3))]
+        d = dict(desc, callable=name, dx=dx, unit_factor=k, grid=mode)
+        with ctx.guard('C15/atf/scale:units', d):
+            i0 = np.asarray(atf(a, dx, [pool[name]], shift=shift, **_grids_for(mode, shape, dx, shift)), dtype=float)
+            if np.shape(i0) != shape:        # known: explicit 2-D grids with polar callables
+                continue
+            ik = atf(a, k * dx, [pk[name]], shift=shift, **_grids_for(mode, shape, k * dx, shift))
+            sc = max(float(np.abs(i0).max()), float(np.abs(a).max()) * 1e-3, 1e-300)
+            _law(ctx, 'scale.units', ik, i0, f'C15/atf/scale:units/{mode}', 'the image changes under a consistent change of units '
+                 '(dx and every length parameter of the transfer function multiplied by the same factor)', d, 1e-9, sc)
+    p = r.random(shape) + 0.01
+    with ctx.guard('C15/otf/scale', desc):
+        m0 = np.asarray(otf.mtf_from_psf(p, 0.5).data)
+        O0 = np.asarray(otf.otf_from_psf(p, 0.5).data)
+        for s in (1e-12, 1e-9, 1e9, 1e12):
+            d = dict(desc, factor=s)
+            arg = (RichData(s * p, 0.5, None),) if s in (1e-9, 1e12) else (s * p, 0.5)
+            key = f'C15/otf/scale:psf={_mag(s)}'
+            _law(ctx, 'scale.otf', np.asarray(otf.mtf_from_psf(*arg).data), m0, key, 'the MTF changes when the PSF is multiplied by a '
+                 'constant', d, RT, 1.0)
+            Os = np.asarray(otf.otf_from_psf(*arg).data)
+            _law(ctx, 'scale.otf', Os, O0, key, 'the OTF changes when the PSF is multiplied by a constant', d, RT, 1.0)
+            ph = np.asarray(otf.ptf_from_psf(*arg).data)
+            if ph.shape == O0.shape:
+                _law(ctx, 'scale.otf', np.abs(O0) * np.exp(1j * ph), O0, key, 'the PTF changes when the PSF is multiplied by a constant',
+                     d, RT, 1.0)
+            m_dx = np.asarray(otf.mtf_from_psf(s * p, 0.5 * s).data)
+            _law(ctx, 'scale.otf', m_dx, m0, key + '/dx', 'the MTF samples change with the sample spacing of the PSF', d, RT, 1.0)
+
+
+def _edge_positions(shape):
+    n0, n1 = shape
+    rows = sorted({0, n0 // 2, n0 - 1, max(n0 // 2 - 1, 0), min(n0 // 2 + 1, n0 - 1)})
+    cols = sorted({0, n1 // 2, n1 - 1, max(n1 // 2 - 1, 0), min(n1 // 2 + 1, n1 - 1)})
+    return [(i0, i1) for i0 in rows for i1 in cols]
+
+
+def _special_shifts(shape):
+    n0, n1 = shape
+    out = []
+    for k0 in sorted({1, -1, n0 // 2, -(n0 // 2), n0 - 1, n0, -n0}):
+        out.append((k0, 0))
+    for k1 in sorted({1, -1, n1 // 2, -(n1 // 2), n1 - 1, n1, -n1}):
+        out.append((0, k1))
+    out += [(n0 // 2, -(n1 // 2)), (-(n0 - 1), n1 - 1)]
+    return out
+
+
+def _p3_special(ctx, conv, atf, otf, r, shape, shift, desc, full=True):
+    n0, n1 = shape
+    a = r.standard_normal(shape) + 0.25          # dense: everything that crosses a border wraps into non-zero samples
+    amax = float(np.abs(a).max())
+    pos = _edge_positions(shape)
+    if not full:
+        pos = [pos[int(j)] for j in r.permutation(len(pos))[:6]]
+    with ctx.guard(f'C15/conv/{par2(shape)}', desc):
+        for (i0, i1) in pos:
+            dlt = np.zeros(shape)
+            dlt[i0, i1] = 1.0
+            k0, k1 = i0 - n0 // 2, i1 - n1 // 2
+            which = 'impulse-identity' if (k0, k1) == (0, 0) else 'impulse-translation'
+            d = dict(desc, at=(i0, i1))
+            _law(ctx, f'conv.{which}', conv(a, dlt), np.roll(a, (k0, k1), axis=(0, 1)), f'C15/conv/{which}/{par2(shape)}',
+                 'conv(a, delta at origin+k) != roll(a, k) [impulse on an edge / corner / next to the origin]', d, RT, amax)
+            ctx.observe('special.conv')
+        _law(ctx, 'special.conv', conv(a, np.ones(shape)), np.full(shape, a.sum()), 'C15/conv/special:psf=all-ones',
+             'conv(a, all-ones) is not sum(a) everywhere', desc, RT, float(np.abs(a).sum()))
+        _law(ctx, 'special.conv', conv(a, np.zeros(shape)), np.zeros(shape), 'C15/conv/special:psf=all-zero',
+             'conv(a, all-zero) is not zero', desc, RT, amax)
+        _law(ctx, 'special.conv', conv(np.ones(shape), a), np.full(shape, a.sum()), 'C15/conv/special:obj=all-ones',
+             'conv(all-ones, h) is not sum(h) everywhere', desc, RT, float(np.abs(a).sum()))
+    dx = [1.0, 0.25, 3.7][int(r.integers(3))]
+    fxd, fyd = doc_grids(shape, dx, shift)
+    ks = _special_shifts(shape)
+    if not full:
+        ks = [ks[int(j)] for j in r.permutation(len(ks))[:5]]
+    with ctx.guard(f'C15/atf/shift={shift}/linear-phase-array', desc):
+        base = np.asarray(atf(a, dx, [np.ones(shape)], shift=shift))
+        for (k0, k1) in ks:
+            lp = linear_phase(k0, k1, dx)
+            d = dict(desc, k=(k0, k1), dx=dx)
+            want = np.roll(base, (k0, k1), axis=(0, 1))
+            t = lp(fxd.reshape(1, -1), fyd.reshape(-1, 1))
+            # the sampled phase ramp is Hermitian only for integer k, which these are; at k = +-n/2 (even n) the Nyquist sample is real
+            _law(ctx, 'atf.linear-phase', atf(a, dx, [t], shift=shift), want, f'C15/atf/shift={shift}/linear-phase-translation/array',
+                 'the transfer function exp(-2 pi i f.k dx) does not translate the image by k samples [k with exactly one zero '
+                 'component / k = +-n/2, n-1, +-n]', d, RT, amax)
+            _law(ctx, 'atf.linear-phase', atf(a, dx, [lp], shift=shift), want, f'C15/atf/shift={shift}/linear-phase-translation/callable/dx',
+                 'the callable transfer function exp(-2 pi i f.k dx) does not translate the image by k samples [special k]', d, RT, amax)
+            ctx.observe('special.atf')
+    with ctx.guard(f'C15/otf/{par2(shape)}', desc):
+        # a single-sample PSF anywhere (corners, edges): |OTF| == 1 everywhere; an all-ones PSF: MTF is 1 at the origin sample, 0 elsewhere
+        for (i0, i1) in pos[:4] + pos[-2:]:
+            dlt = np.zeros(shape)
+            dlt[i0, i1] = 2.5
+            m = np.asarray(otf.mtf_from_psf(dlt, dx).data)
+            _law(ctx, 'special.otf', m, np.ones(shape), 'C15/mtf/special:psf=single-sample', 'the MTF of a single-sample PSF is not 1 '
+                 'everywhere', dict(desc, at=(i0, i1)), RT, 1.0)
+            O = np.asarray(otf.otf_from_psf(dlt, dx).data)
+            ph = np.asarray(otf.ptf_from_psf(dlt, dx).data)
+            _mtf_validity(ctx, m, O, ph, shape, dict(desc, at=(i0, i1)), False)
+        want = np.zeros(shape)
+        want[n0 // 2, n1 // 2] = 1.0
+        m = np.asarray(otf.mtf_from_psf(np.ones(shape), dx).data)
+        _law(ctx, 'special.otf', m, want, 'C15/mtf/special:psf=all-ones', 'the MTF of a constant PSF is not the unit sample at zero '
+             'frequency', desc, RT, 1.0)
+
+
+def _run_pass3(ctx):
+    from prysm import otf
+    from prysm._richdata import RichData
+    from prysm.convolution import apply_transfer_functions as atf, conv
+    rng = ctx.rng('c15-pass3')
+    shapes = list(P3_SHAPES)
+    for _ in range(ctx.pick(4, 600)):
+        shapes.append((int(rng.integers(1, ctx.pick(20, 48) + 1)), int(rng.integers(1, ctx.pick(20, 48) + 1))))
+    k = -1
+    for shape in shapes:
+        for shift in (False, True):
+            for part in ('stack', 'scale', 'special'):
+                k += 1
+                if not ctx.mine(k):
+                    continue
+                if shape[0] * shape[1] < 2:
+                    continue
+                sub = ctx.subseed(rng)
+                r = np.random.default_rng(sub)
+                desc = {'wl': 'pass3:' + part, 'shape': shape, 'shift': shift, 'seed': sub,
+                        'class': f'pass3:{part}:{shape_class(shape)}:shift={shift}'}
+                ctx.case(desc)
+                with driving(ctx, wl='pass3:' + part):
+                    if part == 'stack':
+                        _p3_stack(ctx, atf, r, shape, shift, desc)
+                    elif part == 'scale':
+                        _p3_scale(ctx, conv, atf, otf, RichData, r, shape, shift, desc)
+                    else:
+                        _p3_special(ctx, conv, atf, otf, r, shape, shift, desc)
+        k += 1          # 7 enumeration indices per shape: every (shift, part) combination visits every shard
+    # class I: prime / awkward sizes >= 64, dense content that wraps around the border
+    big = list(AWKWARD_Q) + (list(AWKWARD_T) if not ctx.quick else [])
+    for _ in range(ctx.pick(0, 40)):
+        n = int(rng.integers(64, 300))
+        m = [int(rng.integers(64, 300)), int(rng.integers(1, 4)), n][int(rng.integers(3))]
+        big.append((n, m) if rng.integers(2) else (m, n))
+    k = -1
+    with driving(ctx, wl='pass3:awkward-size'):
+        for shape in big:
+            k += 1
+            if not ctx.mine(k):
+                continue
+            sub = ctx.subseed(rng)
+            r = np.random.default_rng(sub)
+            shift = bool(k % 2)
+            desc = {'wl': 'pass3:awkward-size', 'shape': shape, 'shift': shift, 'seed': sub, 'class': f'size:awkward:{shape_class(shape)}'}
+            ctx.case(desc)
+            ctx.observe('size.awkward')
+            with ctx.guard(f'C15/conv/{par2(shape)}', desc):
+                for cls in ('rand-nonneg', 'delta-anywhere', 'double-delta', 'gauss-offcentre'):
+                    _conv_laws(ctx, conv, r, shape, cls, desc)
+            _p3_special(ctx, conv, atf, otf, r, shape, shift, desc, full=False)
+            for cls in ('arrays-hermitian', 'callables', 'linear-phase-array', 'linear-phase-callable'):
+                d2 = dict(desc, tf=cls)
+                with ctx.guard(f'C15/atf/shift={shift}/{cls}', d2):
+                    _atf_case(ctx, atf, r, shape, cls, shift, 'dx', [1.0, 0.25, 3.7][int(r.integers(3))], d2)
+            if shape[0] * shape[1] <= 20000:
+                _p3_stack(ctx, atf, r, shape, shift, desc, light=True)
+
+
 # ------------------------------------------------------------------------------------------- class F: foreign traffic
 def _run_foreign(ctx):
     """Other public consumers of the helpers apply_transfer_functions builds its grids with (forward_ft_unit,
@@ -2013,7 +2325,9 @@ def _run_internal(ctx):
                 dm.actuators[:] = rng.standard_normal(dm.actuators.shape)
                 dm.render(wfe=False)
                 dm.actuators[:] = rng.standard_normal(dm.actuators.shape)      # same DM object, second render
-                dm.render(wfe=False)
+                out = dm.render(wfe=False)
+                # render_backprop passes np.conj(self.tf), a (1, M, N) ndarray stack, to apply_transfer_functions
+                dm.render_backprop(rng.standard_normal(np.shape(out)), wfe=False)
 
 
 def install_monitors(ctx):
